@@ -139,7 +139,7 @@ def constants(ctx):
     # FailedToAcquireName texts
     fa = prog.func('error.FailedToAcquireName.__init__')
     texts = {}
-    for p in Interp(prog, exc_edges=False).run(fa):
+    for p in Interp(prog, exc_edges=False, unroll_const=True).run(fa):
         code = None
         for c, pol in p.cond:
             if kind(c) == 'cmp' and c[1] == '==' and pol and is_const(c[3]):
@@ -201,6 +201,20 @@ def _atom(c, rq):
                     x[2] == flags and x[3] == C(bit)) and \
                 not contains(c, lambda x: kind(x) == 'cmp'):
             return nm, True
+    # ... or any other test that is a function of the flags word alone (a
+    # precomputed table indexed by `flags & 7`, a comparison with a mask):
+    # decided by evaluating it for the eight values of the low three bits
+    if contains(c, lambda x: x == flags) and not contains(
+            c, lambda x: kind(x) in ('param', 'attr', 'call', 'loopvar',
+                                     'elem') and x != flags and
+            not (kind(x) == 'call' and x[1] == 'bool')):
+        vals = [truth(subst_fold(c, {flags: C(f)})) for f in range(8)]
+        if None not in vals:
+            for bit, nm in ((2, 'REPLACE'), (4, 'NO_QUEUE')):
+                if vals == [bool(f & bit) for f in range(8)]:
+                    return nm, True
+                if vals == [not (f & bit) for f in range(8)]:
+                    return nm, False
     if kind(c) == 'sub' and kind(c[1]) == 'attr' and c[1][2] == 'busNames' \
             and is_head(c[1][1]) and c[2] == name:
         return 'OWNER_ALLOWS', True
@@ -359,11 +373,20 @@ def request_table(ctx):
             atoms.get('QUEUED') and code == 2)
         if stays:
             flags = ('param', rq.params()[2])
+            def is_allow_bit(v):
+                if contains(v, lambda x: kind(x) == 'binop' and
+                            x[1] == '&' and x[2] == flags and x[3] == C(1)):
+                    return True
+                # any function of the flags word that is true exactly when
+                # bit 0 is set (a table indexed by `flags & 7`)
+                if not contains(v, lambda x: x == flags):
+                    return False
+                vals = [truth(subst_fold(v, {flags: C(f)}))
+                        for f in range(8)]
+                return vals == [bool(f & 1) for f in range(8)]
             okb = any(ev[0] == 'setsub' and kind(ev[1]) == 'attr' and
                       ev[1][2] == 'busNames' and ev[1] != table and
-                      ev[2] == name and contains(
-                          ev[3], lambda x: kind(x) == 'binop' and
-                          x[1] == '&' and x[2] == flags and x[3] == C(1))
+                      ev[2] == name and is_allow_bit(ev[3])
                       for ev in iter_events(p.trace))
             ctx.ob('C13.D2', rq.qualname, 'records-allow-replacement:%s'
                    % ('already-queued' if atoms.get('QUEUED') else
